@@ -60,7 +60,8 @@ type retrieveResult struct {
 
 func evalLibrary(c *Case, doc interface{}, accessor bool) retrieveResult {
 	rec := &Recorder{}
-	cfg := BuildConfig(rec, c.Funcs, accessor)
+	// the order in which the Config is put together varies with the case (a pure function of the path)
+	cfg := BuildConfigOrder(rec, c.Funcs, accessor, len(c.Path)%2 == 1)
 	noteParse(c.Path, c.Funcs, accessor)
 	f, err := jsonpath.Parse(c.Path, cfg)
 	if err != nil {
